@@ -658,13 +658,20 @@ def scribble_array(a, how):
 
 
 def scribble_list(L, how):
-    """In-place modification of a (nested) list of numbers."""
+    """In-place modification of the numbers in a (nested) list; tuples are walked (their mutable elements changed),
+    empty inner lists get an element when how == 'fill'."""
     done = False
     for i, e in enumerate(L):
-        if isinstance(e, list):
+        if isinstance(e, (list, tuple)):
             done = scribble_list(e, how) or done
-        elif isinstance(e, (int, float)) and not isinstance(e, bool):
+            if isinstance(e, list) and how == "fill" and not any(isinstance(x, (list, tuple, np.ndarray)) for x in e):
+                e.append(0)
+                done = True
+        elif isinstance(e, (int, float)) and not isinstance(e, bool) and isinstance(L, list):
             L[i] = e + 1 if how != "zero" else (0 if e else 1)
+            done = True
+        elif isinstance(e, set) and how == "fill":
+            e.add(-1)
             done = True
     return done
 
@@ -679,9 +686,9 @@ def h_scribble(w, st, rec):
             st.models.pop(r["is_model"], None)
         for a in arrays_of(r["obj"]):
             done = scribble_array(a, how) or done
-        if isinstance(r["obj"], list):
+        if isinstance(r["obj"], (list, tuple)):
             done = scribble_list(r["obj"], how) or done
-            if r["obj"] and how == "fill" and not isinstance(r["obj"][0], np.ndarray):
+            if isinstance(r["obj"], list) and r["obj"] and how == "fill" and not isinstance(r["obj"][0], np.ndarray):
                 r["obj"].append(0)
                 done = True
         if isinstance(r["obj"], set) and how == "fill":
